@@ -2,6 +2,7 @@ package props
 
 import (
 	"fmt"
+	"github.com/trustbloc/sidetree-core-go/pkg/api/protocol"
 	"strings"
 	"sync"
 	"time"
@@ -87,6 +88,7 @@ func historicalThroughHandler(c *ev.Ctx) {
 func c06Config(c *ev.Ctx, cfg string) (int64, int64, int64) {
 	run := runResolutionTLC(c, "MC_C06", cfg, 40*time.Minute)
 	e := mustEngine(run.Alpha, KeyTypeForSeed(c.Seed), concr.SHA256)
+	eN := e.WithoutRefs()
 	cases := run.Cases
 	index := make(map[string]int, len(cases))
 	maxT := 0
@@ -141,6 +143,26 @@ func c06Config(c *ev.Ctx, cfg string) (int64, int64, int64) {
 				}
 			}
 			check("version-time", T, trunc, document.WithVersionTime(rfc3339(T)))
+			// the same cut on a ledger without canonical references: state and the published / unpublished operation lists
+			if (i+T)%3 == 0 {
+				localCuts++
+				gotN, rmN, _ := eN.Resolve(cs.Ops, document.WithVersionTime(rfc3339(T)))
+				wantN, rmT, _ := eN.Resolve(trunc)
+				lists := func(rm *protocol.ResolutionModel) [2]int {
+					if rm == nil {
+						return [2]int{-1, -1}
+					}
+					return [2]int{len(rm.PublishedOperations), len(rm.UnpublishedOperations)}
+				}
+				switch {
+				case !gotN.Equal(wantN):
+					c.Violation("without-canonical-references:historical-differs-from-truncated:version-time", map[string]interface{}{"store": e.Describe(cs.Ops), "cut": T,
+						"resolved_at_cut": gotN, "resolved_truncated_history": wantN})
+				case lists(rmN) != lists(rmT):
+					c.Violation("without-canonical-references:historical-operation-lists-differ-from-truncated:version-time", map[string]interface{}{"store": e.Describe(cs.Ops), "cut": T,
+						"published_unpublished_at_cut": lists(rmN), "published_unpublished_truncated_history": lists(rmT)})
+				}
+			}
 		}
 		for _, v := range cs.Ops {
 			if !v.Pub {
@@ -167,6 +189,30 @@ func c06Config(c *ev.Ctx, cfg string) (int64, int64, int64) {
 				}
 			}
 			break // one operation per store is enough: the ids have one format
+		}
+		// a version id together with a version time: an error, or the state both cuts allow - never one of them ignored
+		if i%4 == 2 {
+			for _, v := range cs.Ops {
+				if !v.Pub || v.T < 1 {
+					continue
+				}
+				T := v.T - 1
+				var trunc []AnchOp
+				for _, a := range cs.Ops {
+					if a.Pub && a.T <= T && (a.T < v.T || (a.T == v.T && a.N <= v.N)) {
+						trunc = append(trunc, a)
+					}
+				}
+				localCuts++
+				got, _, err := e.Resolve(cs.Ops, document.WithVersionID(Ref(v.T, v.N)), document.WithVersionTime(rfc3339(T)))
+				if err == nil {
+					if want, _, _ := e.Resolve(trunc); len(trunc) == 0 || !got.Equal(want) {
+						c.Violation("version-time-ignored-when-version-id-given", map[string]interface{}{"store": e.Describe(cs.Ops), "version_id": Ref(v.T, v.N), "version_time": T,
+							"observed": got, "note": "the operation named by the version id is anchored after the version time, yet it is part of the result"})
+					}
+				}
+				break
+			}
 		}
 		// a version time before 1970 is before every operation
 		if i%4 == 1 {
